@@ -171,3 +171,12 @@ pub fn sin_ticks_i32f32_whole_domain() {
     let _y = tr::sin(x);
     assert!(hk::ticks() <= BOUND_64);
 }
+
+// the bit patterns of the module's constants that the Verus units transc / trig use (their templates restate the values)
+#[cfg(kani)]
+#[kani::proof]
+pub fn const_values() {
+    assert!(tr::ZERO.to_bits() == 0 && tr::ONE.to_bits() == 0x80_0000 && tr::TWO.to_bits() == 0x100_0000);
+    assert!(tr::PI.to_bits() == 26353589 && tr::TWO_PI.to_bits() == 52707178 && tr::FRAC_PI_2.to_bits() == 13176794);
+    assert!(tr::LOG2_E.to_bits() == 12102203 && tr::E.to_bits() == 22802600);
+}
